@@ -196,15 +196,13 @@ def sameCfg (c : Cfg) : C01.Op → Prop
   | .build c' _ _ _ => c'.index = c.index → c' = c
   | _ => True
 
-/-- **C04 over histories**: in every reachable state the forest is routed w.r.t. the stored vectors,
-    except possibly for items carrying an updated mark (added, overwritten or deleted since the last
-    build) … -/
-theorem C04_history_unmarked (hfresh : FreshSupply) (c : Cfg) (hi : c.index < 65536) (o : BuildOpts)
-    (ops : List C01.Op) (hops : ∀ op ∈ ops, op.wf) (hQ : ∀ op ∈ ops, sameCfg c op) :
-    RoutedUnmarked c o (C01.run ops) := by
-  apply C01.C01_history_induction hfresh c hi (RoutedUnmarked c o) (sameCfg c) _ _ _ _ ops hops hQ
-  · intro t ht
-    simp [Check.trees, Store.get] at ht
+/-- `C04_history_unmarked` from any starting state satisfying the invariants (a metric change of the index
+    empties the forest, so it trivially keeps the property) -/
+theorem C04_history_unmarked_from (hfresh : FreshSupply) (c : Cfg) (hi : c.index < 65536) (o : BuildOpts)
+    (ops : List C01.Op) (hops : ∀ op ∈ ops, op.wf) (hQ : ∀ op ∈ ops, sameCfg c op)
+    (s0 : Store) (hinv0 : ∀ c : Cfg, c.index < 65536 → IndexInv c s0) (h0 : RoutedUnmarked c o s0) :
+    RoutedUnmarked c o (ops.foldl C01.step s0) := by
+  apply C01.C01_history_induction_from hfresh c hi (RoutedUnmarked c o) (sameCfg c) _ _ _ _ ops hops hQ s0 hinv0 h0
   · intro s s' hinv hinv' m hP
     exact C04_unmarked_mutate hi hinv hinv' m hP
   · intro s c' _ he _ t ht
@@ -216,6 +214,37 @@ theorem C04_history_unmarked (hfresh : FreshSupply) (c : Cfg) (hi : c.index < 65
     have := C04_routed c' o' fuel { env with store := s } st' hwf.1 hwf.2.1 hfresh hinv'.1 hb
       (fun t ht => (RoutedD_mono_side (fun n x => Or.inr rfl) (hP t ht)))
     exact C04_unmarked_of_routed (Routed_opts c' o' o _ this)
+  · intro s c' m' s' _ _ _ _ _ _ hu _ t ht
+    simp [Check.trees, hu.1] at ht
+
+/-- an index without metadata has no tree: it is routed -/
+theorem RoutedUnmarked_of_noMeta {c : Cfg} {o : BuildOpts} {s : Store} (h : Store.get s c.metaKey = none) :
+    RoutedUnmarked c o s := by
+  intro t ht
+  simp [Check.trees, h] at ht
+
+/-- **C04 over histories**: in every reachable state the forest is routed w.r.t. the stored vectors,
+    except possibly for items carrying an updated mark (added, overwritten or deleted since the last
+    build) … -/
+theorem C04_history_unmarked (hfresh : FreshSupply) (c : Cfg) (hi : c.index < 65536) (o : BuildOpts)
+    (ops : List C01.Op) (hops : ∀ op ∈ ops, op.wf) (hQ : ∀ op ∈ ops, sameCfg c op) :
+    RoutedUnmarked c o (C01.run ops) :=
+  C04_history_unmarked_from hfresh c hi o ops hops hQ [] (fun c _ => C01.C01_inv_empty c)
+    (RoutedUnmarked_of_noMeta rfl)
+
+/-- the same from any state satisfying the invariants in which the forest of `c` is routed up to the marked
+    items — e.g. right after a metric change, when the index has no tree: only the operations SINCE that state
+    have to build the index with the configuration `c` -/
+theorem C04_history_from (hfresh : FreshSupply) (c : Cfg) (ops : List C01.Op) (hops : ∀ op ∈ ops, op.wf)
+    (hQ : ∀ op ∈ ops, sameCfg c op) (o : BuildOpts) (fuel : Nat) (env st' : BState)
+    (hwf : (C01.Op.build c o fuel env).wf)
+    (s0 : Store) (hinv0 : ∀ c : Cfg, c.index < 65536 → IndexInv c s0) (h0 : RoutedUnmarked c o s0)
+    (h : build c o fuel { env with store := ops.foldl C01.step s0 } = .ok ((), st')) :
+    Routed c o st'.store ∧ Check.routed c st'.store = [] := by
+  have hr := C04_routed c o fuel { env with store := ops.foldl C01.step s0 } st' hwf.1 hwf.2.1 hfresh
+    (C01.C01_inv_foldl hfresh ops hops s0 hinv0 c hwf.1).1 h
+    (C04_history_unmarked_from hfresh c hwf.1 o ops hops hQ s0 hinv0 h0)
+  exact ⟨hr, (C04_checker c o _).2 hr⟩
 
 /-- … and right after a successful build it is routed for every item -/
 theorem C04_history (hfresh : FreshSupply) (c : Cfg) (ops : List C01.Op) (hops : ∀ op ∈ ops, op.wf)
